@@ -3,8 +3,11 @@ package eng
 import (
 	"bytes"
 	"context"
+	"encoding/base64"
+	"encoding/hex"
 	"fmt"
 	"io"
+	"math"
 	"math/rand"
 	"net/http"
 	"os"
@@ -31,6 +34,7 @@ import (
 type RobustRow struct {
 	Shape     string   `json:"shape"`
 	Unset     []string `json:"unset"`
+	Size      string   `json:"size"` // scalar rows: which end of the int64 range the digest's size is at
 	Malformed bool     `json:"malformed"`
 }
 
@@ -68,11 +72,146 @@ func storeCAS(f *fe.Fixture, b []byte) *pb.Digest {
 	return d
 }
 
+// scalarCase builds the request of a scalar row of Robust.tla: a digest with a well-formed hash whose
+// size_bytes sits at an end of the int64 range.
+func scalarCase(r RobustRow) RobustCase {
+	size := map[string]int64{"minus1": -1, "minInt64": math.MinInt64, "maxInt64": math.MaxInt64, "maxInt64minus7": math.MaxInt64 - 7, "fiveGiB": 5 << 30}[r.Size]
+	name := fmt.Sprintf("%s size_bytes=%s", r.Shape, r.Size)
+	run := func(f *fe.Fixture, rng *rand.Rand) (string, error) {
+		ctx, c := context.WithTimeout(context.Background(), 20*time.Second)
+		defer c()
+		data := drv.GenData(rng, 40, 1)
+		d := &pb.Digest{Hash: fmtw.Sha(data), SizeBytes: size}
+		zdata := zstdEncode(data)
+		first := func(e error, st interface{ GetCode() int32 }) string {
+			if e != nil {
+				return code(e)
+			}
+			return codes.Code(st.GetCode()).String()
+		}
+		switch r.Shape {
+		case "FindMissingBlobs":
+			_, e := f.CAS.FindMissingBlobs(ctx, &pb.FindMissingBlobsRequest{BlobDigests: []*pb.Digest{dg([]byte("q")), d}})
+			return code(e), nil
+		case "BatchUpdateBlobs/identity", "BatchUpdateBlobs/zstd":
+			rq := &pb.BatchUpdateBlobsRequest_Request{Digest: d, Data: data}
+			if strings.HasSuffix(r.Shape, "zstd") {
+				rq.Data, rq.Compressor = zdata, pb.Compressor_ZSTD
+			}
+			resp, e := f.CAS.BatchUpdateBlobs(ctx, &pb.BatchUpdateBlobsRequest{Requests: []*pb.BatchUpdateBlobsRequest_Request{rq}})
+			if e == nil && len(resp.Responses) == 1 {
+				return first(nil, resp.Responses[0].Status), nil
+			}
+			return code(e), nil
+		case "BatchReadBlobs/identity", "BatchReadBlobs/zstd":
+			req := &pb.BatchReadBlobsRequest{Digests: []*pb.Digest{d}}
+			if strings.HasSuffix(r.Shape, "zstd") {
+				req.AcceptableCompressors = []pb.Compressor_Value{pb.Compressor_ZSTD}
+			}
+			resp, e := f.CAS.BatchReadBlobs(ctx, req)
+			if e == nil && len(resp.Responses) == 1 {
+				return first(nil, resp.Responses[0].Status), nil
+			}
+			return code(e), nil
+		case "GetTree":
+			st, e := f.CAS.GetTree(ctx, &pb.GetTreeRequest{RootDigest: d})
+			if e == nil {
+				_, e = st.Recv()
+			}
+			if e == io.EOF {
+				e = nil
+			}
+			return code(e), nil
+		case "GetActionResult":
+			_, e := f.AC.GetActionResult(ctx, &pb.GetActionResultRequest{ActionDigest: d})
+			return code(e), nil
+		case "UpdateActionResult/file", "UpdateActionResult/stdout":
+			ar := &pb.ActionResult{}
+			if strings.HasSuffix(r.Shape, "file") {
+				ar.OutputFiles = []*pb.OutputFile{{Path: "f", Digest: d}}
+			} else {
+				ar.StdoutDigest = d
+			}
+			_, e := f.AC.UpdateActionResult(ctx, &pb.UpdateActionResultRequest{ActionDigest: dg(drv.GenData(rng, 8, 0)), ActionResult: ar})
+			return code(e), nil
+		case "SpliceBlob/blob", "SpliceBlob/chunk":
+			a, b := drv.GenData(rng, 10, 0), drv.GenData(rng, 10, 0)
+			req := &pb.SpliceBlobRequest{BlobDigest: dg(append(append([]byte{}, a...), b...)), ChunkDigests: []*pb.Digest{storeCAS(f, a), storeCAS(f, b)}}
+			if strings.HasSuffix(r.Shape, "blob") {
+				req.BlobDigest = &pb.Digest{Hash: req.BlobDigest.Hash, SizeBytes: size}
+			} else {
+				req.ChunkDigests[1] = &pb.Digest{Hash: req.ChunkDigests[1].Hash, SizeBytes: size}
+			}
+			_, e := f.CAS.SpliceBlob(ctx, req)
+			return code(e), nil
+		case "ByteStream.Read/blobs", "ByteStream.Read/zstd":
+			res := "blobs"
+			if strings.HasSuffix(r.Shape, "zstd") {
+				res = "compressed-blobs/zstd"
+			}
+			st, e := f.BS.Read(ctx, &bytestream.ReadRequest{ResourceName: fmt.Sprintf("%s/%s/%d", res, d.Hash, size)})
+			for e == nil {
+				_, e = st.Recv()
+			}
+			if e == io.EOF {
+				e = nil
+			}
+			return code(e), nil
+		case "ByteStream.Write/blobs", "ByteStream.Write/zstd":
+			res, payload := "blobs", data
+			if strings.HasSuffix(r.Shape, "zstd") {
+				res, payload = "compressed-blobs/zstd", zdata
+			}
+			w, e := f.BS.Write(ctx)
+			if e != nil {
+				return code(e), nil
+			}
+			_ = w.Send(&bytestream.WriteRequest{ResourceName: fmt.Sprintf("uploads/%08x-0000-0000-0000-000000000000/%s/%s/%d", rng.Uint32(), res, d.Hash, size), Data: payload, FinishWrite: true})
+			_, e = w.CloseAndRecv()
+			return code(e), nil
+		case "QueryWriteStatus":
+			_, e := f.BS.QueryWriteStatus(ctx, &bytestream.QueryWriteStatusRequest{ResourceName: fmt.Sprintf("uploads/u/blobs/%s/%d", d.Hash, size)})
+			return code(e), nil
+		case "FetchBlob/checksum":
+			// the asset API has no size; the extreme goes where a number is parsed: the HTTP source's Content-Length is not under
+			// the client's control here, so this row sends the qualifier with the digest and an unreachable source
+			raw, _ := hex.DecodeString(d.Hash)
+			resp, e := f.Fetch.FetchBlob(ctx, &asset.FetchBlobRequest{Uris: []string{"http://127.0.0.1:1/nothing"}, Qualifiers: []*asset.Qualifier{{Name: "checksum.sri", Value: "sha256-" + base64.StdEncoding.EncodeToString(raw)}}})
+			if e == nil {
+				return codes.Code(resp.GetStatus().GetCode()).String(), nil
+			}
+			return code(e), nil
+		case "HttpPut/X-Digest-SizeBytes":
+			c1, _, _, e := f.HTTPDo(http.MethodPut, "/cas/"+d.Hash, data, map[string]string{"X-Digest-SizeBytes": fmt.Sprint(size)})
+			if e != nil {
+				return "transport:" + e.Error(), nil
+			}
+			c2, _, _, e := f.HTTPDo(http.MethodPut, "/cas/"+d.Hash, zdata, map[string]string{"X-Digest-SizeBytes": fmt.Sprint(size), "Content-Encoding": "zstd"})
+			if e != nil {
+				return "transport:" + e.Error(), nil
+			}
+			return fmt.Sprintf("HTTP/%d/%d", c1, c2), nil
+		case "HttpGet/cas":
+			c1, _, _, e := f.HTTPDo(http.MethodGet, "/cas/"+d.Hash, nil, map[string]string{"X-Digest-SizeBytes": fmt.Sprint(size), "Accept-Encoding": "zstd"})
+			if e != nil {
+				return "transport:" + e.Error(), nil
+			}
+			return fmt.Sprintf("HTTP/%d", c1), nil
+		}
+		return "", fmt.Errorf("no scalar case for shape %s", r.Shape)
+	}
+	return RobustCase{Name: name, Malformed: r.Malformed, Run: run}
+}
+
 // LatticeCases turns the TLC table into executable cases.
 func LatticeCases(rows []RobustRow) []RobustCase {
 	var out []RobustCase
 	for _, r := range rows {
 		r := r
+		if r.Size != "" {
+			out = append(out, scalarCase(r))
+			continue
+		}
 		name := fmt.Sprintf("%s unset=%v", r.Shape, r.Unset)
 		var run func(f *fe.Fixture, rng *rand.Rand) (string, error)
 		switch r.Shape {
